@@ -79,10 +79,28 @@ Definition judge_ok (s : sstate) (o : op) : bool :=
   | _ => true
   end.
 
-(** per step seven characters:
+(** is the step inside the region where the model claims to describe the implementation exactly?  (everything of
+    [op_wf] except inserts whose positional column types differ: DuckDB then casts values) *)
+Definition faithful_ok (c : cfg) (m : mstate) (o : op) : bool :=
+  let pos_ok n proj d :=
+    match alookup n (m_tabs m) with
+    | None => true
+    | Some old => match eval_query (DGood (df_tbl d), proj) with Some u => compatible old u | None => true end
+    end in
+  op_wf o &&
+  match o with
+  | OpInsert n b d =>
+      pos_ok n (if b then match byname_source c with ByCache => cached m n | ByEngine => actual (m_tabs m) n end
+                else None) d
+  | OpSave n a s d => match sat_plan c a s with SatInsert => pos_ok n None d | _ => true end
+  | OpReadPath p f => match alookup p (m_files m) with Some (CFull g _) => fmt_eqb f g | Some CPartial => false | None => true end
+  | _ => true
+  end.
+
+(** per step eight characters:
     impl obs = model obs | impl snapshot = model state | impl obs = spec obs | impl snapshot = spec state |
     step in the theorem's domain | model = spec on this step (observation and abstract state) |
-    step may be judged against the spec *)
+    step may be judged against the spec | step inside the model's exact region *)
 Fixpoint walk (c : cfg) (residue : residue_fn) (m : mstate) (s : sstate)
          (ops : list op) (io : list obs) (sn : list snap) : string :=
   match ops, io, sn with
@@ -96,6 +114,7 @@ Fixpoint walk (c : cfg) (residue : residue_fn) (m : mstate) (s : sstate)
       ++ bit (obs_match mo so && tabs_match (m_tabs m') (s_tabs s')
               && list_eqb (fun a b => String.eqb (fst a) (fst b) && content_eqb (snd a) (snd b)) (m_files m') (s_files s'))
       ++ bit (judge_ok s o)
+      ++ bit (faithful_ok c m o)
       ++ walk c residue m' s' ops' io' sn'
   | _, _, _ => ""
   end.
